@@ -45,7 +45,7 @@ func (w *World) Observe() *Obs {
 		po := PeerObs{FSMs: w.DUT.FSMs(p)}
 		for i := range po.FSMs {
 			if po.FSMs[i].State == "established" {
-				if po.Est == nil {
+				if po.Est == nil || (p.conn != nil && po.FSMs[i].Con == p.conn) {
 					po.Est = &po.FSMs[i]
 				}
 				po.NEst++
